@@ -188,3 +188,26 @@ PROPS["C17"] = {
 
 NOT_APPLICABLE = {p: "check under construction in this commit; see DESIGN.md §8 for the planned machinery" for p in
                   ["C%02d" % i for i in range(1, 20)]}
+
+# Source pins: the regenerated statement lists (Gen/Flows.lean) of the files whose behaviour is modelled
+# by hand, per property whose model, judge or table was read from that file. A pin (`Pins.Src.<File>.pinned`)
+# fails as soon as the file says anything else, which re-opens the question for these properties.
+_SRC_PINS = {
+    "C01": ["ObjIter", "BatchObjIter", "ExplicitRoot"],
+    "C05": ["Output", "Human"],
+    "C06": ["RefGroupBuilder", "FilterValue", "FilterGroupValue", "Grouper", "ShowRefGrouper"],
+    "C07": ["RefGroupBuilder", "Grouper"],
+    "C08": ["PathResolver", "Output"],
+    "C10": ["MainFile", "Gitconfig", "ObjIter", "BatchObjIter", "RefIter", "ObjResolver"],
+    "C11": ["Output"],
+    "C12": ["Human"],
+    "C13": ["GitBin"],
+    "C14": ["MainFile", "NegatedBool", "Gitconfig", "RefGroupBuilder"],
+    "C15": ["Gitconfig"],
+    "C16": ["Oid"],
+    "C17": ["ObjIter", "BatchObjIter", "RefIter"],
+    "C18": ["MainFile"],
+    "C19": ["Output", "Oid"],
+}
+for _p, _ms in _SRC_PINS.items():
+    PROPS[_p]["modules"] = PROPS[_p]["modules"] + ["GitSizer.Props.Pins.Src." + _m for _m in _ms]
